@@ -248,6 +248,11 @@ def _chunk(args):
         if len(agg["samples"]) < 2 or (len(agg["samples"]) < 3 and res["faults"]):
             agg["samples"].append({"idx": idx, "seed": seed, "case": _trim_sample(case),
                                    "faults_fired": res["faults"]})
+    try:
+        from . import seams as _seams
+        agg["native"] = set("%s.%s" % k for k in _seams.native.calls)
+    except Exception:
+        agg["native"] = set()
     return agg
 
 
@@ -274,7 +279,7 @@ def batch(machine, tier, master, n_runs, workers=16, wall_cap=None, want_obs_upt
     total = {"evaluations": 0, "digests": set(), "faults": collections.Counter(),
              "probes": collections.Counter(), "states": set(), "steps": 0, "violations": [],
              "harness_errors": [], "samples": [], "obs": {}, "observations": [], "not_judged": 0,
-             "nontrivial_total": 0, "truncated": False, "planned_runs": n_runs}
+             "nontrivial_total": 0, "truncated": False, "planned_runs": n_runs, "native": set()}
     ctx = multiprocessing.get_context("fork")
     done_runs = 0
     if workers <= 1:
@@ -297,6 +302,7 @@ def batch(machine, tier, master, n_runs, workers=16, wall_cap=None, want_obs_upt
             total["violations"].extend(agg["violations"])
             total["harness_errors"].extend(agg["harness_errors"])
             total["obs"].update(agg["obs"])
+            total["native"] |= agg.get("native", set())
             total["observations"].extend(agg["observations"][:max(0, 20 - len(total["observations"]))])
             for s in agg["samples"]:
                 if len(total["samples"]) < 3:
